@@ -781,15 +781,15 @@ def change_digest(before, after):
                      + ("-" + ",".join(minus) if minus else ""))
     if before.get("symtab") != after.get("symtab"):
         sb, sa = _symbol_lines(before["symtab"]), _symbol_lines(after["symtab"])
-        plus = sorted({k[1] for k in sa if k not in sb
-                       and not k[1].startswith("$")})
-        minus = sorted({k[1] for k in sb if k not in sa
-                        and not k[1].startswith("$")})
-        mod = sorted({k[1] for k in sa if k in sb and sa[k] != sb[k]
-                      and not k[1].startswith("$")})
-        parts.append("sym" + ("+" + ",".join(plus) if plus else "")
-                     + ("-" + ",".join(minus) if minus else "")
-                     + ("~" + ",".join(mod) if mod else ""))
+        plus = any(k not in sb and not k[1].startswith("$") for k in sa)
+        minus = any(k not in sa and not k[1].startswith("$") for k in sb)
+        mod = any(k in sb and sa[k] != sb[k] and not k[1].startswith("$")
+                  for k in sa)
+        # flags only (added / removed / modified): names and counts depend
+        # on the seed program
+        parts.append("sym" + ("+" if plus else "") + ("-" if minus else "")
+                     + ("~" if mod else "")
+                     + ("" if plus or minus or mod else "(args/tags)"))
     if not parts and before.get("code") != after.get("code"):
         diff = [d for d in difflib.unified_diff(
             before["code"].splitlines(), after["code"].splitlines(),
